@@ -192,6 +192,8 @@ def check_case(ctx, c, m, stats):
 def run(ctx):
     n = 1300 if ctx.quick() else 26000
     fixed_witnesses(ctx)            # documented behaviours first (minimal replays), F13 observation
+    wstats = dict(written=0, raised=0, closure=0)
+    named_read_witnesses(ctx, wstats)
     cases = U.make_cases(ctx, n)
     rng = ctx.rng
     for c in cases:
@@ -264,6 +266,49 @@ WITNESSES = [
     ([A, {"type": "map", "values": "int"}], {"x": 1}, 1, "F13 observation: record then map, dict fits both -> map"),
     ([A, {"type": "map", "values": ["int", "string"]}], {"x": 1, "-type": "A"}, 0, "TYPEHINT a '-type' hinted record vs a map branch that also fits"),
 ]
+
+
+# named types nested INSIDE a type reached by name: the reader options must survive the by-name step
+_E = {"type": "enum", "name": "E", "symbols": ["A", "B"]}
+_R2 = {"type": "record", "name": "R2", "fields": [{"name": "k", "type": "int"}]}
+_R = {"type": "record", "name": "R", "fields": [{"name": "u", "type": ["null", _E, _R2]}]}
+NAMED_READ_WITNESSES = [
+    # R defined once and used a second time BY NAME
+    ({"type": "record", "name": "O1", "fields": [{"name": "a", "type": _R}, {"name": "b", "type": "R"}, {"name": "c", "type": ["null", "R"]}]},
+     {"a": {"u": "A"}, "b": {"u": {"k": 1}}, "c": {"u": "B"}}),
+    # array items / map values given by name
+    ({"type": "record", "name": "O2", "fields": [{"name": "first", "type": _R}, {"name": "rest", "type": {"type": "array", "items": "R"}},
+                                                  {"name": "m", "type": {"type": "map", "values": ["null", "R", "E"]}}]},
+     {"first": {"u": None}, "rest": [{"u": "B"}, {"u": {"k": 2}}, {"u": None}], "m": {"x": {"u": {"k": 3}}, "y": "A", "z": None}}),
+    # a recursive record, three levels deep
+    ({"type": "record", "name": "Node", "fields": [{"name": "v", "type": "long"}, {"name": "next", "type": ["null", "Node"]},
+                                                    {"name": "u", "type": ["null", {"type": "enum", "name": "NE", "symbols": ["A", "B"]},
+                                                                           {"type": "record", "name": "NR", "fields": [{"name": "k", "type": "int"}]}]}]},
+     {"v": 1, "u": "A", "next": {"v": 2, "u": {"k": 7}, "next": {"v": 3, "u": "B", "next": None}}}),
+]
+NAMED_READ_OPTS = [{}, {"return_named_type": True}, {"return_record_name": True},
+                   {"return_named_type": True, "return_named_type_override": True},
+                   {"return_record_name": True, "return_record_name_override": True},
+                   {"return_record_name": True, "return_named_type": True},
+                   {k: True for k in ROPT_KEYS}]
+
+
+def named_read_witnesses(ctx, stats):
+    """deterministic, first in every run: every reader-option combination on values with named union branches at every level
+    below a by-name step; also the closure write-back (mode 'none': no hints in the data)"""
+    import fastavro, json
+    cs = []
+    for raw, datum in NAMED_READ_WITNESSES:
+        named = {}
+        parsed = fastavro.parse_schema(json.loads(json.dumps(raw)), named)
+        for ro in NAMED_READ_OPTS:
+            for use_raw in (False, True):
+                c = CC.Case()
+                c.raw, c.parsed, c.named, c.datum, c.suffix, c.wopts, c.ropts, c.tag, c.use_raw = raw, parsed, named, datum, b"", {}, dict(ro), "witness-named-read:none", use_raw
+                cs.append(c)
+    model = U_run(ctx, [expr(c) for c in cs], "c09w")
+    for c, m in zip(cs, model):
+        check_case(ctx, c, m, stats)
 
 
 def fixed_witnesses(ctx):
